@@ -249,6 +249,8 @@ class View(object):
         if old == new:
             return
         r = a.reverse
+        if a.is_pk and old is not None:
+            raise Refuse('%r is (part of) the primary key and cannot change' % a)
         if a.required and new is None:
             raise Refuse('%r is required' % a)
         if not r.is_set:
@@ -266,6 +268,8 @@ class View(object):
                 if a0 is not None and a0 != x:
                     if a.required:
                         raise Refuse('cannot unlink %r: %r is required' % (a0, a))
+                    if r.is_pk:
+                        raise Refuse('%r is (part of) the primary key of %r and cannot change' % (r, new))
                     self.unlink(r, new, a0)
                 self.link(a, x, new)
         else:
